@@ -643,9 +643,14 @@ Proof.
       rewrite (trunc8_small (blen b)) by lia. rewrite trunc8_small by lia. reflexivity.
   - destruct ((blen b <? 16) && ((blen b =? 0) || (afi f =? 2)) && negb (nh_as_is f)) eqn:Hpad.
     + apply andb_prop in Hpad as [Hpad _]. apply andb_prop in Hpad as [Hlt _]. apply N.ltb_lt in Hlt.
-      assert (Hl : blen (b ++ zeros (16 - length b)) = 16).
-      { rewrite blen_app, blen_zeros. unfold blen in *. lia. }
-      eexists. split; [rewrite Hl; reflexivity | lia].
+      destruct (blen b =? 4) eqn:E4.
+      * apply N.eqb_eq in E4.
+        assert (Hl : blen (zeros 10 ++ [255; 255] ++ b) = 16).
+        { rewrite !blen_app, blen_zeros. change (blen [255; 255]) with 2. lia. }
+        eexists. split; [rewrite Hl; reflexivity | lia].
+      * assert (Hl : blen (b ++ zeros (16 - length b)) = 16).
+        { rewrite blen_app, blen_zeros. unfold blen in *. lia. }
+        eexists. split; [rewrite Hl; reflexivity | lia].
     + eexists. split; [f_equal; apply trunc8_small; lia | lia].
 Qed.
 
@@ -778,7 +783,7 @@ Proof. intros H. inversion H. reflexivity. Qed.
 
 Lemma mp_nexthop_expected f b bytes :
   blen b < 248 ->
-  (is_flowspec f = true \/ is_vpn f = true \/ 16 <= blen b \/ nh_as_is f = true \/ (blen b <> 0 /\ afi f <> 2)) ->
+  (is_flowspec f = true \/ is_vpn f = true \/ 16 <= blen b \/ nh_as_is f = true \/ blen b = 4 \/ (blen b <> 0 /\ afi f <> 2)) ->
   mp_nexthop f (Some b) = blen bytes :: bytes -> bytes = expected_nexthop f b.
 Proof.
   intros Hb Hrep H. unfold mp_nexthop, expected_nexthop in *. change (len b) with (blen b) in H.
@@ -787,11 +792,18 @@ Proof.
   destruct (is_vpn f) eqn:Hv; cbn [andb] in H.
   { destruct (blen b =? 32); apply cons_inj_tl in H; symmetry; exact H. }
   destruct ((blen b <? 16) && ((blen b =? 0) || (afi f =? 2)) && negb (nh_as_is f)) eqn:Hpad.
-  - exfalso. apply andb_prop in Hpad as [Hpad Has]. apply andb_prop in Hpad as [Hlt Hor].
-    apply N.ltb_lt in Hlt. apply negb_true_iff in Has.
-    destruct Hrep as [Hr | [Hr | [Hr | [Hr | [Hr0 Hr2]]]]]; try congruence; try lia.
-    apply orb_prop in Hor as [Hz | Ha]; [apply N.eqb_eq in Hz; lia | apply N.eqb_eq in Ha; lia].
-  - apply cons_inj_tl in H. symmetry. exact H.
+  - apply andb_prop in Hpad as [Hpad Has]. apply andb_prop in Hpad as [Hlt Hor].
+    apply N.ltb_lt in Hlt. rewrite Has.
+    destruct (blen b =? 4) eqn:E4.
+    + apply N.eqb_eq in E4. apply cons_inj_tl in H.
+      apply orb_prop in Hor as [Hz | Ha]; [apply N.eqb_eq in Hz; lia|]. rewrite Ha. cbn [andb]. symmetry. exact H.
+    + exfalso. apply N.eqb_neq in E4. apply negb_true_iff in Has.
+      destruct Hrep as [Hr | [Hr | [Hr | [Hr | [Hr | [Hr0 Hr2]]]]]]; try congruence; try lia.
+      apply orb_prop in Hor as [Hz | Ha]; [apply N.eqb_eq in Hz; lia | apply N.eqb_eq in Ha; lia].
+  - apply cons_inj_tl in H.
+    destruct ((blen b =? 4) && (afi f =? 2) && negb (nh_as_is f)) eqn:Hm; [|symmetry; exact H].
+    exfalso. apply andb_prop in Hm as [Hm Has]. apply andb_prop in Hm as [H4 Ha].
+    apply N.eqb_eq in H4. rewrite Ha, Has in Hpad. rewrite H4 in Hpad. cbn in Hpad. discriminate.
 Qed.
 
 Lemma legacy_maxbits c f : legacy c f = true -> maxbits_of f = 32.
